@@ -236,6 +236,21 @@ func buildDirectedDefs() []directedDef {
 	add("shared-3", func(k int) *HierSpec {
 		return shared(k, modeNSEC, modeNSEC3, modeNSEC, 3, []string{"tld-a"}, []string{"tld-a"}, []string{"tld-a"})
 	})
+	// forgemix-*: combined forgeries of one response, enumerated by shape
+	// (forgemix.go): an NSEC and an NSEC3 family, each with a signed sub-zone so
+	// that a grandparent other than the root exists.
+	add("forgemix-0", func(k int) *HierSpec {
+		h := basic(k, modeNSEC, modeNSEC, dns.ECDSAP256SHA256, 0)
+		h.Levels = append(h.Levels, lvl("sub", "sub.zone."+directedTLD(k), modeNSEC, dns.ECDSAP256SHA256, "sub-a"))
+		return h
+	})
+	add("forgemix-1", func(k int) *HierSpec {
+		h := basic(k, modeNSEC3, modeNSEC3, dns.ED25519, 3)
+		h.Levels[2].SplitKeys = true
+		h.Levels[2].Servers = []string{"zone-a"}
+		h.Levels = append(h.Levels, lvl("sub", "sub.zone."+directedTLD(k), modeNSEC3, dns.ECDSAP256SHA256, "zone-a"))
+		return h
+	})
 	return defs
 }
 
@@ -392,7 +407,16 @@ func directedPlans(w *world, controlOK map[string]bool) []plan {
 			}
 		}
 	}
+	addVariant := func(kindName, qKind, role string, atParent bool, variant int) {
+		n := len(out)
+		add(kindName, qKind, role, atParent)
+		if len(out) > n {
+			out[n].variant, out[n].fixedVariant = variant, true
+		}
+	}
 	switch directedFamily(w.spec.Directed) {
+	case "forgemix":
+		forgemixPlans(w, addVariant)
 	case "window":
 		for _, k := range []string{"window-expired", "window-notyet"} {
 			add(k, "zone-pos", roleAnswer, false)
